@@ -16,6 +16,7 @@ use super::{Name, RevName};
 /// from other bytes. Only recently-inserted domain names are stored, and
 /// only from the first 16KiB of the message (as compressed names cannot point
 /// any further). This is good enough for building small and large messages.
+#[derive(Clone)]
 #[repr(align(64))] // align to a typical cache line
 pub struct NameCompressor {
     /// The last use position of every entry.
